@@ -48,6 +48,7 @@ Fixpoint judge_steps (ents : list (Z * Z * abind)) (prev : out) (steps : list st
   match steps, outs with
   | st :: steps', o :: outs' =>
       (5, x_probe o && x_update o) :: (8, negb (x_panicked o)) ::
+      (6, match st with SOp _ => ops_leave_others prev o | SFrame _ => true end) ::
       concat (map (judge_entry (match st with SFrame f => match f_ops f with [] => true | _ => false end | _ => false end) prev o) ents) ++ judge_steps ents o steps' outs'
   | [], [] => []
   | _, _ => [(9, false)]
